@@ -200,18 +200,94 @@ def gen_stream(rng, thorough, idx):
     return "S %d %d %d %d %d %d %d %d" % (seed, chunker, csize, cmin, cmax, nfiles, maxfile, style)
 
 
+def valid_component(b):
+    return len(b) > 0 and 0x2f not in b and 0 not in b and b not in (b".", b"..")
+
+
+def gen_forest(rng, pool):
+    """trees over (raw, stored) name pairs: mostly sorted by raw name with distinct names (as backup
+    writes them), sometimes unsorted or with a duplicate; sub-directories reference later trees"""
+    nt = rng.randint(1, 4)
+    trees = {}
+    tag = [100]
+    for tid in range(nt, 0, -1):
+        k = rng.choice([0, 1, 2, 3, 5, 8, 12])
+        picks = rng.sample(pool, min(k, len(pool)))
+        seen, nodes = set(), []
+        for raw, stored in picks:
+            if raw in seen: continue
+            seen.add(raw)
+            sub = rng.choice([0, 0] + list(range(tid + 1, nt + 1))) if tid < nt else 0
+            tag[0] += 1
+            nodes.append([raw, stored, sub, tag[0]])
+        style = rng.random()
+        if style < 0.8: nodes.sort(key=lambda x: x[0])
+        elif style < 0.9: rng.shuffle(nodes)
+        else:
+            nodes.sort(key=lambda x: x[0])
+            if nodes:                                    # a duplicate raw name (first match wins)
+                d = list(rng.choice(nodes)); tag[0] += 1; d[3] = tag[0]; nodes.append(d)
+        trees[tid] = nodes
+    listing = []
+    def walk(tid, prefix, depth):
+        for raw, stored, sub, tg in trees[tid]:
+            pth = prefix + [raw]
+            listing.append((pth, tg))
+            if sub: walk(sub, pth, depth + 1)
+    walk(1, [], 0)
+    def find(pth):
+        tid, node = 1, None
+        for i, c in enumerate(pth):
+            if tid == 0: return None
+            node = next((x for x in trees[tid] if x[0] == c), None)
+            if node is None: return None
+            tid = node[2]
+        return node[3] if node else None
+    queries = [pth for pth, _ in listing]
+    for _ in range(rng.randint(1, 4)):
+        base = list(rng.choice(listing)[0]) if listing and rng.random() < 0.7 else []
+        k = rng.randint(0, 3)
+        if k == 0: base = base + [rng.choice(pool)[0]]
+        elif k == 1 and base: base = base[:-1] + [rng.choice(pool)[1]]       # the STORED form as a component
+        elif k == 2 and base: base = base[:-1] + [base[-1] + b"x"]
+        else: base = [rng.choice(pool)[0]]
+        if base: queries.append(base)
+    toks = ["T", str(nt)]
+    for tid in sorted(trees):
+        toks += [str(tid), str(len(trees[tid]))]
+        for raw, stored, sub, tg in trees[tid]: toks += [hx(stored), str(sub), str(tg)]
+    toks += ["1", str(len(queries))]
+    for q in queries: toks += [str(len(q))] + [hx(c) for c in q]
+    exp_ls = ",".join("/".join(hx(c) for c in pth) + ":" + str(tg) for pth, tg in listing)
+    exp_q = ",".join(str(find(q)) if find(q) is not None else "-" for q in queries)
+    return " ".join(toks), "ok ls=%s | q=%s" % (exp_ls, exp_q), len(listing)
+
+
+def gen_time(rng):
+    s = rng.choice([0, -1, -2, 1, -86400, 86400, -2 ** 31, 2 ** 31 - 1, 2 ** 31, 2 ** 32, 2 ** 33, 7258118400, -2145916800,
+                    -377705023201, -377705023202, 253402207200, 253402207201,
+                    -rng.randint(1, 3 * 10 ** 9), rng.randint(1, 10 ** 10), -rng.randint(1, 10 ** 6), rng.randint(1, 10 ** 6)])
+    n = rng.choice([0, 0, 1, 999999999, 500000000, 250000000, 750000000, rng.randint(0, 999999999)])
+    return "M %d %d" % (s, n), s, n
+
+
 # ------------------------------------------------------------------ the check
 
 def run(ctx):
     rng = ctx.rng
     cov = ctx.coverage
     meta, err = vlib.regen_extracted("C01")
+    meta06, err06 = vlib.regen_extracted("C06")     # the chunker model file_content_roundtrip composes with
     r = vlib.proof_stage(ctx)
     if err:
         r["ok"] = False
         r["failures"].append("fact extraction failed: " + err)
+    if err06:
+        r["ok"] = False
+        r["failures"].append("fact extraction of C06 (chunker constants, check_rabin_params) failed: " + err06)
     cov["trusted_base"] += [
-        "props/C01/extract.py (shape checks of indexer.rs / packer.rs / vfs.rs / node.rs; decides Extracted.indexed_typed)",
+        "props/C01/extract.py (shape checks of indexer.rs / packer.rs / vfs.rs / node.rs / tree.rs / mapper.rs / local_destination.rs; decides Extracted.indexed_typed, lookup_binary_search, lookup_compares_stored, restore_time_direct)",
+        "props/C06 (chunker model, its theorems and its extractor) — imported by file_content_roundtrip / backup_file_readback; the correspondence of that model with chunker/rabin.rs is C06's check, here only the stream stage observes it",
         "harness/src/bin/c01.rs + harness/src/e2e.rs (tree generation, directory comparison), verif_hooks/c01.rs (scripted Packer/Indexer segments)",
     ]
     ctx.assumptions += [
@@ -220,6 +296,9 @@ def run(ctx):
         "read_at: blob sizes and offsets are usize, total file size < usize::MAX; index lookup returns the stored blob (C17/C08)",
         "pipeline: blob ids determine blob bytes within a run (Consistent = SHA-256 collision-freedom on the values that occur); crossbeam/pariter stages are FIFO; should_save is treated as arbitrary (any flush schedule)",
         "pipeline: process_data/encrypt/zstd round-trip and the pack header/offset layout are abstracted (C04/C08): a pack is the list of its blobs",
+        "path lookup: a tree blob deserialises to the node list it was serialised from (serde, exercised); directories have pairwise different names (wf_repo; the lookup returns the FIRST match, compared on generated trees with duplicates too)",
+        "times: std SystemTime arithmetic (duration_since, checked_add/sub), jiff Timestamp<->SystemTime and filetime::FileTime::from_system_time are modelled from their sources (jiff 0.2, filetime 0.2) and compared with the real conversions on generated timespecs; the RFC 3339 text form in the tree JSON round-trips (exercised e2e)",
+        "file content: chunk ids are H(chunk) for an arbitrary function H with Consistent blobs (no SHA-256 collision in the run); every chunk is handed to the data packer of the run (fresh repository; chunks already present in an older index are C07's subject)",
         "e2e: LocalSource metadata capture, LocalDestination syscalls, serde, chunker, crypto and zstd are exercised, not proved; ctime/atime/ownership/xattrs are outside the property (run as root)",
         "e2e: chunker parameters are taken from the region that does not panic (rabin min_size >= 4096 <= avg, fixed size >= 512); the refused/panicking regions belong to C18/C06 (DESIGN section 7 rows 5, 13)",
         "e2e: version-1 repositories are created with Repository::init_with_config (Repository::init refuses set_version = 1)",
@@ -367,6 +446,49 @@ def run(ctx):
     samples.append({"case": pl[0], "impl": ip[0], "model": mp[0] if mp else None})
 
     lap('pipeline')
+    # ---- 3b. path lookup on scripted trees (names from stage 1: raw name, stored name as the code escapes it,
+    #          and stored names with ill-formed escapes under the name Node::name() falls back to)
+    pool = [(n, e) for n, e in zip(names, escaped) if e is not None and valid_component(n)]
+    for j in range(nrt, len(nu_lines)):
+        a = iu[j]
+        if a.startswith("ok "):
+            raw = bytes.fromhex(a[3:]) if a[3:] != "-" else b""
+            if valid_component(raw): pool.append((raw, extra[j - nrt]))
+    tcases = [gen_forest(rng, pool) for _ in range(1500 if T else 150)]
+    tl = [c[0] for c in tcases]
+    it = run_lines(impl, tl)
+    mt_ = run_lines(model, tl) if model else None
+    for i, ((ln, want, nlisted), a) in enumerate(zip(tcases, it)):
+        evals += 1
+        bump("tree_listed_entries", nlisted)
+        if a != want:      # the oracle: the listing is the pre-order walk and every listed path is found as that node
+            ctx.violation("an entry listed by ls is not found (or found as another node) by node_from_path, or the listing differs from the trees",
+                          {"case": ln, "impl": a, "expected": want, "how_to_replay": HOWTO})
+        if mt_ and mt_[i] != a: mism.append((ln, a, mt_[i]))
+        if nlisted >= 3: nontriv.add(("T", ln))
+    samples.append({"case": tl[0][:300], "impl": it[0][:300], "model": mt_[0][:300] if mt_ else None})
+    # ---- 3c. time conversion: timespec -> Timestamp (capture) -> set_times on a real file -> stat
+    mcases = [gen_time(rng) for _ in range(2000 if T else 250)]
+    mcases[0] = ("M -2 750000000", -2, 750000000)
+    ml_ = [c[0] for c in mcases]
+    im = run_lines(impl, ml_)
+    mm = run_lines(model, ml_) if model else None
+    for i, ((ln, s_, n_), a) in enumerate(zip(mcases, im)):
+        evals += 1
+        if a.endswith("fs-inexact"):
+            bump("time_fs_inexact")
+            if mm and not mm[i].startswith(a.rsplit(" ", 1)[0]): mism.append((ln, a, mm[i]))
+            continue
+        if "cap=none" in a: bump("time_out_of_jiff_range")
+        elif not a.endswith("res=%d:%d" % (s_, n_)):
+            ctx.violation("a modification time does not survive capture (SystemTime -> Timestamp) and LocalDestination::set_times",
+                          {"case": ln, "impl": a, "expected": "res=%d:%d" % (s_, n_), "how_to_replay": HOWTO})
+        else:
+            bump("time_pre_epoch" if s_ < 0 else "time_post_epoch")
+            if s_ < 0 and n_ != 0: nontriv.add(("M", ln))
+        if mm and mm[i] != a: mism.append((ln, a, mm[i]))
+    samples.append({"case": ml_[0], "impl": im[0], "model": mm[0] if mm else None})
+    lap('tree+time')
     # ---- 4. end to end: the property itself
     ecases = [gen_e2e(rng, T, i) for i in range(250 if T else 14)]
     io = run_lines(impl, ecases, timeout=6000)
@@ -421,9 +543,9 @@ def run(ctx):
                       {"refused": refused}, no_input=True)
     cov.update({
         "evaluations": evals, "distinct_nontrivial": len(nontriv),
-        "rule": "names: byte strings from {random bytes, specials, valid/truncated/overlong/surrogate UTF-8, escaped-looking text} (non-trivial = stored form differs from the name) and stored names with well/ill-formed escapes; read_at: blob lists incl. zero-length blobs x (offset,len) at/around blob boundaries, EOF, 2^63, usize::MAX (non-trivial = >= 2 blobs); pipeline: 1-5 packer segments over a pool of 2-7 ids, both types, pack sizes 1..1MiB (non-trivial = >= 3 blobs); e2e: seeded trees x (version, compression, chunker, chunk sizes, pack sizes), every listed entry also looked up by path, two sub-directories restored by path, mtimes before/at/after the epoch with sub-second parts (non-trivial = >= 5 files and >= 3 packs); stream: in-memory ReadSource through Repository::archive with fragmented and interrupted reads (non-trivial = a short read directly followed by EINTR occurred and >= 2 chunks); distinct by full case text",
+        "rule": "names: byte strings from {random bytes, specials, valid/truncated/overlong/surrogate UTF-8, escaped-looking text} (non-trivial = stored form differs from the name) and stored names with well/ill-formed escapes; read_at: blob lists incl. zero-length blobs x (offset,len) at/around blob boundaries, EOF, 2^63, usize::MAX (non-trivial = >= 2 blobs); path lookup: forests of 1-4 trees over the stage-1 names (raw name, stored name; sorted / unsorted / with a duplicate), queries = every listed path plus missing, stored-form and through-a-file paths (non-trivial = >= 3 listed entries); times: seconds at 0, +-1, +-1 day, 2^31, 2^33, jiff's limits +-1 and random, nanoseconds 0/1/999999999/fractions (non-trivial = pre-epoch with a sub-second part); pipeline: 1-5 packer segments over a pool of 2-7 ids, both types, pack sizes 1..1MiB (non-trivial = >= 3 blobs); e2e: seeded trees x (version, compression, chunker, chunk sizes, pack sizes), every listed entry also looked up by path, two sub-directories restored by path, mtimes before/at/after the epoch with sub-second parts (non-trivial = >= 5 files and >= 3 packs); stream: in-memory ReadSource through Repository::archive with fragmented and interrupted reads (non-trivial = a short read directly followed by EINTR occurred and >= 2 chunks); distinct by full case text",
         "samples": samples[:8], "distribution": hist, "indexed_typed_in_source": (meta or {}).get("indexed_typed"),
-        "traces_validated_against_impl": len(ne_lines) + len(nu_lines) + len(rl) + len(pl),
+        "traces_validated_against_impl": len(ne_lines) + len(nu_lines) + len(rl) + len(pl) + len(tl) + len(ml_),
         "disagreements_checked": len(mism) + len(ctx.violations), "model_impl_mismatches": len(mism),
         "e2e_cases": len(ecases), "stream_cases": len(scases), "e2e_failures": nfail,
     })
